@@ -20,7 +20,7 @@ RULE = ('operations over a universe of 16 rules (shared and splitting prefixes, 
         'history: probes on ~30 paths x 2 verbs + names + rules + routes + WSGI hook traces, real vs freshly built. Non-trivial = the history '
         'contains a removal or a rejected operation; distinct = distinct history.')
 PYOPT = {'quick': 1, 'thorough': 1}     # one unit of every kind is also served by an interpreter started with -O (assert statements compiled out)
-REQUIRED = ['units_run_under_python_-O', 'op_through_another_spelling_of_the_rule', 'scoped_404_reference_checked', 'op_add_scoped_404_handler', 'scoped_404_handler_calls_compared', 'wsgi_probes_below_a_mount_point', 'op_add_method_on_the_route_object', 'scripted_histories', 'op_add_method_list', 'histories', 'ops_applied', 'ops_rejected', 'resolve_probes', 'name_probes', 'wsgi_probes', 'hook_firings_compared', 'structure_checks',
+REQUIRED = ['units_run_under_python_-O', 'op_add_hook_same_function_again', 'op_other_application_parses_new_filters', 'op_through_another_spelling_of_the_rule', 'scoped_404_reference_checked', 'op_add_scoped_404_handler', 'scoped_404_handler_calls_compared', 'wsgi_probes_below_a_mount_point', 'op_add_method_on_the_route_object', 'scripted_histories', 'op_add_method_list', 'histories', 'ops_applied', 'ops_rejected', 'resolve_probes', 'name_probes', 'wsgi_probes', 'hook_firings_compared', 'structure_checks',
             'op_add', 'op_remove', 'op_remove_name', 'op_remove_prefix', 'op_add_hook', 'op_remove_hook', 'op_overwrite', 'rejected_method_clash',
             'rejected_name_clash', 'hook_reference_checked', 'removed_then_probed', 'hook_only_prefix_probed']
 EXHAUSTIVE = {'quick': True, 'thorough': True, 'quick_note': 'all histories of length <= 2 over the 76-operation alphabet',
@@ -100,6 +100,9 @@ def alphabet():
     for h in HOOKS:
         ops.append(('add_hook', h))
         ops.append(('remove_hook', h))
+    # the same function object installed again (after a removal, or twice), as an application re-running its set-up does
+    for h in ('/a', '/h'):
+        ops.append(('add_hook', h, 'same'))
     # the second kind of route hook: a not-found handler scoped to a prefix (app.error(404, rule=...))
     for h in HOOKS_404:
         ops.append(('add_404', h))
@@ -119,6 +122,7 @@ class Sys:
         self.unspec = set()    # hook rules whose state is unspecified (under a removed prefix)
         self.unspec_ids = set()
         self.n = 0
+        self.same = {}
         self.ever_removed = False
 
     def mk_handler(self, log):
@@ -146,6 +150,21 @@ class Sys:
                 app.remove_route(name=op[1])
             elif kind == 'remove_prefix':
                 app.remove_route(op[1])
+            elif kind == 'noise':
+                # another application of the process registers rules with filters nobody has used before
+                other = self.ombott.Ombott()
+                for _ in range(op[1]):
+                    _NOISE[0] += 1
+                    other.route('/noise%d/<v:re:[a-z]{%d}>/<w:re:x{%d}>' % (_NOISE[0], _NOISE[0], _NOISE[0]), 'GET', lambda **kw: None)
+            elif kind == 'add_hook' and len(op) > 2:
+                kid = 'same:' + op[1]
+                if kid not in self.same:
+                    self.same[kid] = make_hook(kid, self.log)
+                self.n += 1
+                if self.n % 2:
+                    app.on_route(op[1], self.same[kid])
+                else:
+                    app.on_route(op[1])(self.same[kid])
             elif kind == 'add_hook':
                 self.n += 1
                 kid = 'k%d' % self.n
@@ -260,11 +279,16 @@ class Sys:
                 if pat.startswith(pre) and h in self.hooks404:
                     self.unspec.add(h)
                     self.unspec_ids.add(self.hooks404.pop(h))
+        elif kind == 'noise':
+            ctx.count('op_other_application_parses_new_filters')
+            if not ok:
+                ctx.violation(f'registration-on-another-application-raises:{out}', f'{op}', None)
         elif kind == 'add_hook':
-            ctx.count('op_add_hook')
+            ctx.count('op_add_hook_same_function_again' if len(op) > 2 else 'op_add_hook')
             if ok:
                 self.hooks[op[1]] = kid
                 self.unspec.discard(op[1])
+                self.unspec_ids.discard(kid)        # the same function installed again is a specified hook again
             else:
                 ctx.count('ops_rejected')
                 if not (op[1] == '/a/<w>' and out == 'raised:RadiDictKeyError'):
@@ -306,6 +330,9 @@ class Sys:
         for h, kid in self.hooks404.items():
             app.error(404, rule=h)(make_404(kid, f.log))
         return f
+
+
+_NOISE = [0]
 
 
 def make_handler(hid, log):
@@ -673,6 +700,20 @@ def scripted_histories():
         out.append(base + [('remove_name', 'n1'), ('add', named, 'POST', 'n2', False), ('remove_name', 'n2')])
         out.append(base[::-1] + [('remove', other)])
         out.append(base + [('remove_prefix', '/s/*')])
+    for h in ('/a', '/h'):
+        same = ('add_hook', h, 'same')
+        out.append([same, ('remove_hook', h), same])
+        out.append([same, same])
+        out.append([same, ('add_hook', h), same])
+        out.append([('add', '/a/<x>', 'GET', None, False), same, ('remove_hook', h), same, ('add', '/h/x', 'GET', None, False)])
+        out.append([same, ('remove_prefix', h + '*'), same])
+        out.append([same, ('remove_hook', h), ('add_hook', h), ('remove_hook', h), same])
+    # the process-wide population of filters grows between the operations on a rule with filters
+    for r, r2 in (('/i/<n:int>/e', '/i/<n:int>.j'), ('/a/<n:int>', '/a/<x>/c'), (SEL1, SEL0), ('/b/<p:path>/end', '/b/<p:path>')):
+        for N in (40, 150, 300):
+            out.append([('add', r, 'GET', 'n1', False), ('noise', N), ('add', r, 'POST', None, False), ('noise', N), ('remove', r)])
+            out.append([('add', r, 'GET', None, False), ('add', r2, 'GET', None, False), ('noise', N), ('remove', r), ('noise', N), ('add', r2, 'PUT', 'n2', False)])
+            out.append([('add', r, 'GET', None, False), ('noise', N), ('add_direct', r, 'PUT'), ('noise', N), ('remove', r), ('add', r, 'GET', None, False)])
     for r in ('/a/<x>', '/h/x'):
         out.append([('add', r, 'GET', None, False), ('add', r, ('PATCH', 'GET'), 'n1', False), ('remove_name', 'n1'), ('remove', r)])
         out.append([('add', r, 'GET', 'n1', False), ('add', '/ab', 'GET', 'n1', False), ('remove_name', 'n1'), ('add', '/ab', 'GET', 'n1', False)])
